@@ -21,4 +21,15 @@ PROPS['C04'] = {
                    'columns in order, refusals only for unknown names / out-of-range positions / forms outside the grammar.',
 }
 
+PROPS['C20'] = {
+    'contracts': ['contracts.io:ArrayFinalize', 'contracts.io:PickleRoundTrip', 'contracts.io:FileEq', 'contracts.io:FileNe'],
+    'bounded': False,
+    'level': 'proof',
+    'explanation': 'State invariant instead of history enumeration: for a sample with arbitrary (symbolic) attribute values, '
+                   '__array_finalize__ propagates every attribute assigned in __new__ as a fresh deep copy (copy/deepcopy/view/'
+                   'slice/ufunc results), __setstate__(__reduce__(x)) restores every attribute and the array part for both '
+                   'shapes of the superclass state, FCSFile.__eq__/__ne__ are the conjunction over name, header, keywords, '
+                   'events, analysis.',
+}
+
 NOT_APPLICABLE = {}
